@@ -27,6 +27,8 @@ fn main() {
     let mut cases_override = None;
     let mut strict = false;
     let mut fuzz_input: Option<String> = None;
+    let mut fuzz_bin: Option<String> = std::env::var("VERIF_FUZZ_BIN").ok();
+    let mut fuzz_secs: u64 = std::env::var("VERIF_FUZZ_SECS").ok().and_then(|s| s.parse().ok()).unwrap_or(240);
     let mut root = "/verif".to_string();
     let mut i = 2;
     while i < args.len() {
@@ -56,6 +58,14 @@ fn main() {
                 cases_override = Some(args.get(i).and_then(|s| s.parse().ok()).unwrap_or_else(|| usage()));
             }
             "--strict" => strict = true,
+            "--fuzz-bin" => {
+                i += 1;
+                fuzz_bin = Some(args.get(i).cloned().unwrap_or_else(|| usage()));
+            }
+            "--fuzz-secs" => {
+                i += 1;
+                fuzz_secs = args.get(i).and_then(|s| s.parse().ok()).unwrap_or_else(|| usage());
+            }
             "--fuzz-input" => {
                 // evaluates one libFuzzer input file with the non-instrumented build (same decoding as the fuzz target)
                 i += 1;
@@ -81,7 +91,7 @@ fn main() {
         let found = s.one(&data);
         std::process::exit(if found.is_some() { 1 } else { 0 });
     }
-    let opts = RunOptions { tier, seed, shards, verif_root: root, replay, cases_override, strict };
+    let opts = RunOptions { tier, seed, shards, verif_root: root, replay, cases_override, strict, fuzz_bin, fuzz_secs, fuzz_driver: Some(vcheck::fuzzrun::run_campaign) };
     let code = match id.as_str() {
         "C01" => run_property(&props_engine::c01(), &opts),
         "C02" => run_property(&c02::C02, &opts),
